@@ -6,6 +6,7 @@ package main
 import (
 	"errors"
 	"fmt"
+	"io"
 	"net/http"
 	"net/http/httptest"
 	"os"
@@ -45,9 +46,10 @@ func server() string {
 }
 
 type exec struct {
-	dir  string
-	reg  *updater.ResourceRegistry
-	dead bool // a call panicked: locks may still be held, nothing more is run on this registry
+	dir   string
+	reg   *updater.ResourceRegistry
+	files map[string]*updater.File // the File handed out last for every identifier
+	dead  bool                     // a call panicked: locks may still be held, nothing more is run on this registry
 }
 
 func newExec(*hxlib.Run) hxlib.Exec {
@@ -64,7 +66,7 @@ func newExec(*hxlib.Run) hxlib.Exec {
 	if err := reg.Initialize(utils.NewDirStructure(dir, 0o755)); err != nil {
 		panic(err)
 	}
-	return &exec{dir: dir, reg: reg}
+	return &exec{dir: dir, reg: reg, files: map[string]*updater.File{}}
 }
 
 func (e *exec) Close() error { return os.RemoveAll(e.dir) }
@@ -172,6 +174,30 @@ func b01(s string) (bool, bool) {
 	return false, false
 }
 
+func blErr(err error) string {
+	switch {
+	case err == nil:
+		return "ok"
+	case strings.Contains(err.Error(), "last version"):
+		return "err last"
+	case strings.Contains(err.Error(), "could not find"):
+		return "err noversion"
+	}
+	return "err other:" + err.Error()
+}
+
+func parseIdx(s string) (*updater.Index, bool) {
+	switch s {
+	case "nil":
+		return nil, true
+	case "auto":
+		return &updater.Index{AutoDownload: true}, true
+	case "noauto":
+		return &updater.Index{}, true
+	}
+	return nil, false
+}
+
 func cmpStr(a, b *semver.Version) string {
 	switch c := a.Compare(b); {
 	case c < 0:
@@ -213,17 +239,8 @@ func (e *exec) Do(line string) string {
 		a, ok1 := b01(f[3])
 		c, ok2 := b01(f[4])
 		p, ok3 := b01(f[5])
-		var idx *updater.Index
-		switch f[6] {
-		case "nil":
-		case "auto":
-			idx = &updater.Index{AutoDownload: true}
-		case "noauto":
-			idx = &updater.Index{}
-		default:
-			return "bad-op"
-		}
-		if !ok1 || !ok2 || !ok3 {
+		idx, ok4 := parseIdx(f[6])
+		if !ok1 || !ok2 || !ok3 || !ok4 {
 			return "bad-op"
 		}
 		if a {
@@ -235,6 +252,59 @@ func (e *exec) Do(line string) string {
 		if err := e.reg.AddResource(id, ver, idx, a, c, p); err != nil {
 			return "err parse"
 		}
+		return "ok"
+	case f[0] == "addv" && len(f) == 6:
+		// Resource.AddVersion called directly on an existing resource (its index stays)
+		id, ver := tok(f[1]), tok(f[2])
+		a, ok1 := b01(f[3])
+		c, ok2 := b01(f[4])
+		p, ok3 := b01(f[5])
+		if !ok1 || !ok2 || !ok3 {
+			return "bad-op"
+		}
+		res := e.reg.VerifResource(id)
+		if res == nil {
+			return "err notfound"
+		}
+		if a {
+			if sv, err := semver.NewVersion(ver); err == nil {
+				touchFile(filepath.Join(e.dir, filepath.FromSlash(refVersionedPath(id, sv.String()))))
+			}
+		}
+		if err := res.AddVersion(ver, a, c, p); err != nil {
+			return "err parse"
+		}
+		return "ok"
+	case f[0] == "addmany" && len(f) >= 5:
+		// AddResources: one index and one set of flags for a map identifier -> version (what loading an index file does)
+		a, ok1 := b01(f[1])
+		c, ok2 := b01(f[2])
+		p, ok3 := b01(f[3])
+		idx, ok4 := parseIdx(f[4])
+		if !ok1 || !ok2 || !ok3 || !ok4 {
+			return "bad-op"
+		}
+		m := map[string]string{}
+		for _, it := range f[5:] {
+			kv := strings.Split(it, "=")
+			if len(kv) != 2 {
+				return "bad-op"
+			}
+			id, ver := tok(kv[0]), tok(kv[1])
+			if _, dup := m[id]; dup {
+				return "bad-op" // a Go map has every identifier once
+			}
+			m[id] = ver
+		}
+		if a {
+			for id, ver := range m {
+				if sv, err := semver.NewVersion(ver); err == nil {
+					touchFile(filepath.Join(e.dir, filepath.FromSlash(refVersionedPath(id, sv.String()))))
+				}
+			}
+		}
+		// the returned "last error" depends on the map iteration order: not observed
+		_ = e.reg.AddResources(m, idx, a, c, p)
 		return "ok"
 	case f[0] == "touch" && len(f) == 4:
 		id, ver := tok(f[1]), tok(f[2])
@@ -273,22 +343,62 @@ func (e *exec) Do(line string) string {
 		if err != nil {
 			return "err other:" + err.Error()
 		}
+		e.files[tok(f[1])] = file
 		return "file " + file.Version() + " " + filepath.ToSlash(rel)
+	case f[0] == "fblacklist" && len(f) == 2:
+		// File.Blacklist on the file handed out last for the identifier
+		file := e.files[tok(f[1])]
+		if file == nil {
+			return "err nofile"
+		}
+		return blErr(file.Blacklist())
+	case f[0] == "unpack" && len(f) == 2:
+		// File.Unpack of the file handed out last, with its extension as suffix: the unpacked copy Purge removes later
+		file := e.files[tok(f[1])]
+		if file == nil {
+			return "err nofile"
+		}
+		ext := filepath.Ext(file.Path())
+		if ext == "" {
+			return "err noext"
+		}
+		p, err := file.Unpack(ext, func(r io.Reader) (io.Reader, error) { return r, nil })
+		if err != nil {
+			return "err other:" + err.Error()
+		}
+		rel, err := filepath.Rel(e.dir, p)
+		if err != nil {
+			return "err other:" + err.Error()
+		}
+		return "unpacked " + filepath.ToSlash(rel)
+	case f[0] == "anyavail" && len(f) == 2:
+		res := e.reg.VerifResource(tok(f[1]))
+		if res == nil {
+			return "err notfound"
+		}
+		return fmt.Sprintf("avail %v", res.AnyVersionAvailable())
+	case f[0] == "rm" && len(f) == 4:
+		// the environment deletes a file of a version behind the updater's back (implementation-only cases)
+		id, ver := tok(f[1]), tok(f[2])
+		sv, err := semver.NewVersion(ver)
+		if err != nil || e.reg.VerifResource(id) == nil {
+			return "err notfound"
+		}
+		ps := filesOf(id, sv.String())
+		k, err := strconv.Atoi(f[3])
+		if err != nil || k < 0 || k >= len(ps) {
+			return "err notfound"
+		}
+		if os.Remove(filepath.Join(e.dir, filepath.FromSlash(ps[k]))) != nil {
+			return "err notfound"
+		}
+		return "ok"
 	case f[0] == "blacklist" && len(f) == 3:
 		res := e.reg.VerifResource(tok(f[1]))
 		if res == nil {
 			return "err notfound"
 		}
-		err := res.Blacklist(tok(f[2]))
-		switch {
-		case err == nil:
-			return "ok"
-		case strings.Contains(err.Error(), "last version"):
-			return "err last"
-		case strings.Contains(err.Error(), "could not find"):
-			return "err noversion"
-		}
-		return "err other:" + err.Error()
+		return blErr(res.Blacklist(tok(f[2])))
 	case f[0] == "purge" && len(f) == 2:
 		k, err := strconv.Atoi(f[1])
 		if err != nil {
@@ -465,7 +575,10 @@ func newest(vs []mVer, p func(mVer) bool) (best []string) {
 // prescribed is the documented order, written as a choice over the set of versions (no sorting involved):
 // dev version if dev mode and locally available; else the current release if selectable; else, with
 // pre-releases enabled, the newest selectable; else the newest selectable stable; else the newest.
-func prescribed(r *mRes, fl regFlags) (want []string, step string) {
+// "The current release" is cur: the version most recently announced as such for this resource, which the monitor
+// knows from the calls of the history (curTruth) — never from the CurrentRelease flags of the implementation
+// ("" = the resource has no current release).
+func prescribed(r *mRes, fl regFlags, cur string) (want []string, step string) {
 	if len(r.vs) == 0 {
 		return []string{"-"}, "empty"
 	}
@@ -474,9 +587,11 @@ func prescribed(r *mRes, fl regFlags) (want []string, step string) {
 			return w, "dev"
 		}
 	}
-	if curs := newest(r.vs, func(v mVer) bool { return v.cur }); len(curs) > 0 {
-		if w := newest(r.vs, func(v mVer) bool { return v.cur && v.num == curs[0] && v.selectable(fl, r.idx) }); len(w) > 0 {
-			return w, "current"
+	if cur != "" {
+		for _, v := range r.vs {
+			if v.num == cur && v.selectable(fl, r.idx) {
+				return []string{cur}, "current"
+			}
 		}
 	}
 	if fl.usePre {
@@ -488,6 +603,66 @@ func prescribed(r *mRes, fl regFlags) (want []string, step string) {
 		return w, "newest-stable"
 	}
 	return newest(r.vs, func(mVer) bool { return true }), "fallback"
+}
+
+// curTruth is the monitor's own record of "the current release" of every resource: the version named by the last
+// AddResource / AddResources / AddVersion call with currentRelease=true for the resource, taken from the op lines of the
+// history (and their outcome), never from the implementation's flags. Where the property does not say which version is
+// the current release, every reading is kept (opts has more than one element; "" = no current release):
+//   - the announcement failed (the version does not parse): the previous current release stays, or there is none;
+//   - a Purge dropped the announced version from the resource: the resource may have forgotten it for good, or it is
+//     the current release again when the version is listed again.
+// opts[0] is the literal reading "most recently announced".
+type curTruth map[string][]string
+
+func (t curTruth) of(id string) []string {
+	if o := t[id]; len(o) > 0 {
+		return o
+	}
+	return []string{""}
+}
+
+func (t curTruth) also(id, alt string) {
+	o := t.of(id)
+	if !in(alt, o) {
+		o = append(append([]string{}, o...), alt)
+	}
+	t[id] = o
+}
+
+// announce records one AddVersion(version, currentRelease=true) for id with its outcome.
+func (t curTruth) announce(id, ver, out string) {
+	switch {
+	case out == "ok":
+		if sv, err := semver.NewVersion(ver); err == nil {
+			t[id] = []string{sv.String()}
+			count("current-release:announced")
+			return
+		}
+		t.also(id, "") // cannot happen: accepted by the implementation, rejected by go-version here
+	case out == "err parse":
+		t.also(id, "")
+		count("current-release:announcement-failed")
+	}
+}
+
+// forgetUnlisted: a version that is not (no longer) listed may have been forgotten as the current release.
+func (t curTruth) forgetUnlisted(st *mState) {
+	for id, opts := range t {
+		r := st.res[id]
+		for _, o := range opts {
+			listed := false
+			if r != nil {
+				for _, v := range r.vs {
+					listed = listed || v.num == o
+				}
+			}
+			if o != "" && !listed && !in("", t.of(id)) {
+				t.also(id, "")
+				count("current-release:dropped-by-purge")
+			}
+		}
+	}
 }
 
 func in(x string, l []string) bool {
@@ -537,6 +712,7 @@ func monitor(c hxlib.Case, outs []string) (vs []hxlib.Violation) {
 		vs = append(vs, hxlib.Violation{Sig: sig, What: what, Lines: c.Lines[lo : i+1], Output: outs[lo : i+1]})
 	}
 	fl := regFlags{}
+	truth := curTruth{}
 	var prev *mState // state before the current op (from the last dump)
 	prevOp := -1     // index of the last non-dump op
 	for i, l := range c.Lines {
@@ -555,6 +731,26 @@ func monitor(c hxlib.Case, outs []string) (vs []hxlib.Violation) {
 				fl.online, _ = b01(f[1])
 				fl.dev, _ = b01(f[2])
 				fl.usePre, _ = b01(f[3])
+			}
+		case "add":
+			if len(f) == 7 && f[4] == "1" {
+				truth.announce(tok(f[1]), tok(f[2]), o)
+			}
+		case "addv":
+			if len(f) == 6 && f[4] == "1" {
+				truth.announce(tok(f[1]), tok(f[2]), o) // "err notfound": no resource, nothing announced
+			}
+		case "addmany":
+			if len(f) >= 5 && f[2] == "1" && o == "ok" {
+				for _, it := range f[5:] {
+					if kv := strings.Split(it, "="); len(kv) == 2 {
+						out := "ok"
+						if _, err := semver.NewVersion(tok(kv[1])); err != nil {
+							out = "err parse"
+						}
+						truth.announce(tok(kv[0]), tok(kv[1]), out)
+					}
+				}
 			}
 		case "rt":
 			// (identifier, version) -> file name -> (identifier, version), documented format only
@@ -591,8 +787,9 @@ func monitor(c hxlib.Case, outs []string) (vs []hxlib.Violation) {
 				add(i, "C19:dump-unparsable", "harness dump could not be parsed: "+o)
 				return vs
 			}
+			truth.forgetUnlisted(cur)
 			if prevOp >= 0 {
-				vs = append(vs, checkOp(c, outs, prevOp, i, prev, cur, fl)...)
+				vs = append(vs, checkOp(c, outs, prevOp, i, prev, cur, fl, truth)...)
 			}
 			prev = cur
 			prevOp = -1
@@ -611,7 +808,7 @@ func splitPath(p string) (string, string) {
 }
 
 // checkOp judges op k (with the state dumps before and after it) against the property statement.
-func checkOp(c hxlib.Case, outs []string, k, at int, before, after *mState, fl regFlags) (vs []hxlib.Violation) {
+func checkOp(c hxlib.Case, outs []string, k, at int, before, after *mState, fl regFlags, truth curTruth) (vs []hxlib.Violation) {
 	add := func(sig, what string) {
 		vs = append(vs, hxlib.Violation{Sig: sig, What: what, Lines: c.Lines[:at+1], Output: outs[:at+1]})
 	}
@@ -621,19 +818,38 @@ func checkOp(c hxlib.Case, outs []string, k, at int, before, after *mState, fl r
 	f := strings.Fields(c.Lines[k])
 	o := outs[k]
 	checkSel := func(r *mRes, why string) {
-		want, step := prescribed(r, fl)
-		count("select-step:" + step)
-		if !in(strings.TrimSuffix(r.sel, "!ghost"), want) {
-			add("C19:selection:"+step, fmt.Sprintf("%s: resource %s flags %+v idx=%s versions %v: selected %s, the documented order prescribes %v (step %s)",
-				why, r.id, fl, r.idx, verList(r), r.sel, want, step))
-		}
-		// outside dev mode a blacklisted version is selected only as that last resort ("else the newest version")
+		sel := strings.TrimSuffix(r.sel, "!ghost")
+		isBl := false
 		for _, v := range r.vs {
-			if v.num == r.sel && v.bl && !fl.dev && step != "fallback" {
-				add("C19:blacklisted-selected", fmt.Sprintf("resource %s flags %+v idx=%s versions %v: blacklisted %s selected although step %q of the documented order applies",
-					r.id, fl, r.idx, verList(r), r.sel, step))
-				break
+			isBl = isBl || (v.num == sel && v.bl)
+		}
+		curs := truth.of(r.id)
+		if len(curs) > 1 {
+			count("current-release:more-than-one-reading")
+		}
+		// every reading of "the current release" the property leaves open is accepted; the report is about the literal one
+		okSel, okBl := false, false
+		for _, cur := range curs {
+			want, step := prescribed(r, fl, cur)
+			if in(sel, want) {
+				okSel = true
+				// outside dev mode a blacklisted version is selected only as that last resort ("else the newest version")
+				okBl = okBl || !isBl || fl.dev || step == "fallback"
 			}
+		}
+		want, step := prescribed(r, fl, curs[0])
+		count("select-step:" + step)
+		curTxt := curs[0]
+		if curTxt == "" {
+			curTxt = "none"
+		}
+		switch {
+		case !okSel:
+			add("C19:selection:"+step, fmt.Sprintf("%s: resource %s flags %+v idx=%s versions %v, current release (last announced) %s: selected %s, the documented order prescribes %v (step %s)",
+				why, r.id, fl, r.idx, verList(r), curTxt, r.sel, want, step))
+		case !okBl:
+			add("C19:blacklisted-selected", fmt.Sprintf("resource %s flags %+v idx=%s versions %v, current release (last announced) %s: blacklisted %s selected although step %q of the documented order applies",
+				r.id, fl, r.idx, verList(r), curTxt, r.sel, step))
 		}
 	}
 	switch f[0] {
@@ -677,12 +893,25 @@ func checkOp(c hxlib.Case, outs []string, k, at int, before, after *mState, fl r
 		} else {
 			count("getfile:" + strings.ReplaceAll(o, " ", "-"))
 		}
-	case "blacklist":
+	case "blacklist", "fblacklist":
 		id := tok(f[1])
 		r, br := after.res[id], before.res[id]
-		count("blacklist:" + strings.ReplaceAll(o, " ", "-"))
+		count(f[0] + ":" + strings.ReplaceAll(o, " ", "-"))
 		if r == nil || br == nil {
 			break
+		}
+		if f[0] == "fblacklist" {
+			// File.Blacklist: the version of the file handed out last, i.e. the active version
+			f = []string{f[0], f[1], br.act}
+			if o == "ok" {
+				hit := false
+				for _, v := range r.vs {
+					hit = hit || (v.num == br.act && v.bl)
+				}
+				if !hit {
+					add("C19:file-blacklist-version", fmt.Sprintf("File.Blacklist on %s (file of version %s handed out) = ok but that version is not blacklisted: %v", id, br.act, verList(r)))
+				}
+			}
 		}
 		nb := func(x *mRes) (n int) {
 			for _, v := range x.vs {
@@ -799,6 +1028,29 @@ func checkOp(c hxlib.Case, outs []string, k, at int, before, after *mState, fl r
 		}
 		if o != w {
 			add("C19:GetSelectedVersions", fmt.Sprintf("GetSelectedVersions() = %q but the resources say %q", o, w))
+		}
+	case "unpack":
+		// the unpacked copy belongs to the files of the version (Purge removes it with the version): right name, on disk
+		// (Unpack does not change the active version: the dump right after the call names the version of the file)
+		if br := after.res[tok(f[1])]; br != nil && strings.HasPrefix(o, "unpacked ") {
+			count("unpack:done")
+			fs := filesOf(tok(f[1]), br.act)
+			if p := strings.TrimPrefix(o, "unpacked "); len(fs) < 3 || p != fs[2] {
+				add("C19:unpack-path", fmt.Sprintf("File.Unpack of %s version %s = %s, which is not the unpacked copy of that version %v", tok(f[1]), br.act, p, fs))
+			} else if !after.disk[p] {
+				add("C19:unpack-missing-file", fmt.Sprintf("File.Unpack of %s version %s = %s, which is not on disk", tok(f[1]), br.act, p))
+			}
+		}
+	case "anyavail":
+		// another view of "the resource lists as available": it must agree with the listing
+		if r := after.res[tok(f[1])]; r != nil {
+			any := false
+			for _, v := range r.vs {
+				any = any || v.avail
+			}
+			if o != fmt.Sprintf("avail %v", any) {
+				add("C19:AnyVersionAvailable", fmt.Sprintf("AnyVersionAvailable(%s) = %q but the resource lists %v", tok(f[1]), o, verList(r)))
+			}
 		}
 	case "getversion":
 		if r := after.res[tok(f[1])]; r != nil && o != "version "+strings.TrimSuffix(r.sel, "!ghost") {
